@@ -79,6 +79,7 @@ type Stream struct {
 	maxRetryRoutines int32         // Maximum retry goroutine limit
 	stopped          int32         // Stop status flag using atomic operations
 	startMu          sync.Mutex    // serializes Start's stopped-check+Add with Stop's flag set
+	stopDone         chan struct{} // closed when the Stop that won the race has finished (created under startMu)
 	log              logger.Logger // per-instance logger; set at construction, immutable after
 
 	// lifecycle tracks goroutines that run user code or sinks (data processor,
@@ -261,11 +262,24 @@ func (s *Stream) Stop() {
 	// Set the stopped flag under startMu so a concurrent Start observes it before
 	// its lifecycle.Add — otherwise Add races with the Wait below.
 	s.startMu.Lock()
+	if s.stopDone == nil {
+		s.stopDone = make(chan struct{})
+	}
+	stopDone := s.stopDone
 	if !atomic.CompareAndSwapInt32(&s.stopped, 0, 1) {
 		s.startMu.Unlock()
-		return // Already stopped, return directly
+		// Already stopped, or another Stop is still tearing the stream down. Return
+		// only once that one is through, so every caller can rely on "nothing runs
+		// after Stop returned" — bounded by the grace, because the call may come from
+		// a sink that the other Stop is itself waiting for.
+		select {
+		case <-stopDone:
+		case <-time.After(defaultStopGrace):
+		}
+		return
 	}
 	s.startMu.Unlock()
+	defer close(stopDone)
 
 	close(s.done)
 
